@@ -156,6 +156,7 @@ func lruProperty(regimes []string) func(t *rapid.T) {
 		if wide {
 			keyGen = rapid.Custom(func(t *rapid.T) string { return fmt.Sprintf("k%d", rapid.IntRange(0, capEff+30).Draw(t, "ki")) })
 		}
+		sleepGen := rapid.SampledFrom([]time.Duration{8 * time.Millisecond, 4 * time.Millisecond, 13 * time.Millisecond, 26 * time.Millisecond})
 		n := 0
 		var steps []lruStep
 		pre := func() {
@@ -259,7 +260,7 @@ func lruProperty(regimes []string) func(t *rapid.T) {
 				steps = append(steps, lruStep{"clear", "", ""})
 			},
 			"sleep": func(t *rapid.T) {
-				d := rapid.SampledFrom([]time.Duration{8 * time.Millisecond, 4 * time.Millisecond, 13 * time.Millisecond, 26 * time.Millisecond}).Draw(t, "d")
+				d := sleepGen.Draw(t, "d")
 				time.Sleep(d)
 				steps = append(steps, lruStep{"sleep", d.String(), ""})
 			},
@@ -335,6 +336,22 @@ func lruProperty(regimes []string) func(t *rapid.T) {
 			rare = append(rare, "putMany", "putMany", "putMany")
 		}
 		if regime == "boundary" {
+			if rapid.IntRange(0, 2).Draw(t, "sweep-prelude") == 0 {
+				// a sweep that finds entries of different ages in an order of use that is not their order of
+				// creation: store, wait, store, read or rewrite (often the older one), wait, sweep - the waits
+				// and keys are drawn, so the entry used last is sometimes expired while a younger one is not
+				allKeys, allSleeps := keyGen, sleepGen
+				older, younger := "a", "b"
+				for i, a := range []string{"put", "sleep", "put", rapid.SampledFrom([]string{"get", "get", "put"}).Draw(t, "prelude-touch"), "sleep", "sweep", ""} {
+					keyGen = rapid.Just(older)
+					if i == 2 || (i == 3 && rapid.IntRange(0, 3).Draw(t, "prelude-touch-younger") == 0) {
+						keyGen = rapid.Just(younger)
+					}
+					sleepGen = rapid.SampledFrom([]time.Duration{13 * time.Millisecond, 8 * time.Millisecond, 13 * time.Millisecond, 4 * time.Millisecond, 17 * time.Millisecond})
+					acts[a](t)
+				}
+				keyGen, sleepGen = allKeys, allSleeps
+			}
 			// time is the subject here: sleeping must be as common as reading and writing
 			t.Repeat(map[string]func(*rapid.T){
 				"": acts[""], "put": acts["put"], "put2": acts["put"], "get": acts["get"], "get2": acts["get"], "get3": acts["get"],
